@@ -465,6 +465,10 @@ func (rs *RelationService) createTable(r *Relation, tableName string) error {
 		return ErrTableAlreadyExist
 	}
 
+	if err := checkCatalogRows(r, tableName); err != nil {
+		return err
+	}
+
 	pg, err := rs.createPage()
 	if err != nil {
 		return err
@@ -476,6 +480,37 @@ func (rs *RelationService) createTable(r *Relation, tableName string) error {
 		return err
 	}
 
+	return nil
+}
+
+// checkCatalogRows reports whether the catalog rows that describe the new table
+// can be stored (a name may be too long, a column length out of range), so that
+// such a table is refused before any part of it is registered.
+func checkCatalogRows(r *Relation, tableName string) error {
+	rows := []Tuple{{
+		Relation: &pageTableSchema,
+		Vals:     map[string]interface{}{"table_name": tableName, "file_offset": int64(0)},
+	}}
+	for _, fd := range r.Fields {
+		rows = append(rows, Tuple{
+			Relation: &schemaTableSchema,
+			Vals: map[string]interface{}{
+				"table_name":   tableName,
+				"field_name":   fd.Name,
+				"field_type":   int64(fd.DataType),
+				"field_length": fd.Len,
+			},
+		})
+	}
+	for _, row := range rows {
+		buf, err := row.Encode()
+		if err != nil {
+			return err
+		}
+		if err := checkRowSizeLimit(buf.Bytes()); err != nil {
+			return err
+		}
+	}
 	return nil
 }
 
